@@ -51,6 +51,12 @@ func init() {
 					p.Faults = append(p.Faults, Fault{Kind: []string{"op-unavail", "op-acklost"}[g.pick(2)], On: "write", N: 5 + g.pick(150)})
 				}
 			}
+			if g.chance(1, 5) {
+				// acknowledgements of store writes are scheduled apart from their effect: watchers may see a write before
+				// its writer does
+				p.Profile += "+late-ack"
+				p.Knobs.LateAck = [][]string{{""}, {"transactions/"}, {"proposals/"}, {"configurations"}}[g.pick(4)]
+			}
 			return p
 		},
 		Arm: func(s *Sys) {
